@@ -536,6 +536,33 @@ func vfChainWirePad(r vfRepairRoot, p vrt.Path, n int, badAt int, sib string, ba
 		}
 	}
 	msg := vrt.BuildForPath(r.MD, p, opts)
+	want := n
+	if sib == "twin" {
+		// the element of the outermost repeated field on the path occurs twice (two failed commands, two failed tasks):
+		// both copies carry the invalid message
+		cur := msg.ProtoReflect()
+		for _, st := range p {
+			f := st.Field
+			if st.Blob || f.Kind() != protoreflect.MessageKind {
+				break
+			}
+			if f.IsList() {
+				l := cur.Mutable(f).List()
+				if l.Len() == 1 {
+					l.Append(protoreflect.ValueOfMessage(proto.Clone(l.Get(0).Message().Interface()).ProtoReflect()))
+					want = 2 * n
+				}
+				break
+			}
+			if f.IsMap() {
+				break
+			}
+			cur = cur.Mutable(f).Message()
+		}
+		if want == n {
+			return nil, false
+		}
+	}
 	restricted, err := vfLegacyRestrict(msg)
 	if err != nil {
 		return nil, false
@@ -544,12 +571,12 @@ func vfChainWirePad(r vfRepairRoot, p vrt.Path, n int, badAt int, sib string, ba
 	if err != nil {
 		return nil, false
 	}
-	if bytes.Count(wire, []byte(marker)) != n {
+	if bytes.Count(wire, []byte(marker)) != want {
 		return nil, false // the legacy schema dropped (part of) the path
 	}
 	for k := 1; k <= n; k++ {
 		if badAt == 0 || badAt == k {
-			wire = bytes.Replace(wire, []byte(fmt.Sprintf("%s%02d", marker, k)), []byte(fmt.Sprintf("%s%02d", bad, k)), 1)
+			wire = bytes.Replace(wire, []byte(fmt.Sprintf("%s%02d", marker, k)), []byte(fmt.Sprintf("%s%02d", bad, k)), want/n)
 		}
 	}
 	return wire, true
@@ -639,6 +666,22 @@ func TestVerifC18(t *testing.T) {
 				}
 			}
 		}
+		// the element of the outermost repeated field twice, both copies with the invalid message
+		if vfPathHasList(j.p) {
+			for _, depth := range []int{1, 2} {
+				wire, known := vfChainWirePad(j.r, j.p, depth, depth, "twin", "MSG\xff", nil)
+				if !known {
+					continue
+				}
+				atomic.AddInt64(&siblingCases, 1)
+				sigPath := j.p.String()
+				if len(sigPath) > 120 {
+					sigPath = sigPath[len(sigPath)-120:]
+				}
+				rp := map[string]any{"root": string(j.r.MD.FullName()), "path": j.p.String(), "depth": depth, "sibling": "twin"}
+				vfCheckWire(res, "C18/two-invalid-elements/"+sigPath, j.r, wire, fmt.Sprintf("invalid UTF-8 in the failure message at depth %d of %s, in two elements of the outermost repeated field on the way", depth, j.p), rp, st)
+			}
+		}
 		// a sibling of another kind (another arm of the element's oneof) before the repaired element: quick takes the
 		// arms of the outermost such list, thorough every arm of every list on the way
 		arms := vfSiblingArms(j.p)
@@ -709,7 +752,7 @@ func TestVerifC18(t *testing.T) {
 		sk = sk[:12]
 	}
 	res.Set("examples_unknown_to_legacy_schema", sk)
-	res.Set("rule", "for every down-convertible request/response type: every structural path from the descriptors (through oneofs, repeated fields, History events, commands; each type at most twice) to a field of type Failure that the legacy schema also knows x chain depth 1..10 (must be repaired) and 11 (error or correct repair); at depth 1-2 also with a run of three invalid bytes and a truncated 4-byte code point; the same at depth 1-2 with a failure-free sibling element before / after the repaired one in every repeated field on the way, and at depth 1 with a sibling of every other kind (every message arm of the element's oneof: another replication-task type, another event type, another command type) before it (thorough: also after it, and in every list on the way, not only the outermost); the conversion tables pair every type with the legacy type of the same name; plus all failure messages of the fully populated message at once; non-trivial = inputs the standard codec rejects for invalid UTF-8")
+	res.Set("rule", "for every down-convertible request/response type: every structural path from the descriptors (through oneofs, repeated fields, History events, commands; each type at most twice) to a field of type Failure that the legacy schema also knows x chain depth 1..10 (must be repaired) and 11 (error or correct repair); at depth 1-2 also with a run of three invalid bytes and a truncated 4-byte code point; the same at depth 1-2 with a failure-free sibling element before / after the repaired one in every repeated field on the way, with the element of the outermost repeated field occurring twice (both invalid), and at depth 1 with a sibling of every other kind (every message arm of the element's oneof: another replication-task type, another event type, another command type) before it (thorough: also after it, and in every list on the way, not only the outermost); the conversion tables pair every type with the legacy type of the same name; plus all failure messages of the fully populated message at once; non-trivial = inputs the standard codec rejects for invalid UTF-8")
 	res.Set("exhaustive", true)
 	if len(jobs) > 0 {
 		res.Sample(map[string]any{"root": string(jobs[0].r.MD.FullName()), "path": jobs[0].p.String(), "depth": 10})
